@@ -115,13 +115,34 @@ const NAME_ATOMS: &[&[u8]] = &[
 /// A valid Shift-JIS string of at most `width-1` bytes, NUL, then garbage.
 pub fn name_field(width: usize, rng: &mut Rng) -> Vec<u8> {
 	let mut out = vec![];
-	let target = rng.below(width);
+	// now and then: a run of single-byte half-width katakana (1 byte -> 3 UTF-8 bytes), up to the
+	// whole field without a terminating NUL
+	if rng.chance(1, 12) {
+		let n = if rng.chance(1, 2) { width } else { rng.range(1, width) };
+		out.extend((0..n).map(|_| 0xA1 + rng.below(0x3F) as u8));
+		if out.len() < width {
+			out.push(0);
+		}
+		while out.len() < width {
+			out.push(rng.byte());
+		}
+		return out;
+	}
+	// a field completely filled with text, no NUL
+	let full = rng.chance(1, 10);
+	let target = if full { width } else { rng.below(width) };
 	loop {
 		let a = *rng.pick(NAME_ATOMS);
 		if out.len() + a.len() > target {
 			break;
 		}
 		out.extend_from_slice(a);
+	}
+	if full {
+		while out.len() < width {
+			out.push(b'A' + rng.below(26) as u8);
+		}
+		return out;
 	}
 	out.push(0);
 	while out.len() < width {
@@ -132,7 +153,20 @@ pub fn name_field(width: usize, rng: &mut Rng) -> Vec<u8> {
 
 pub fn ascii_field(width: usize, rng: &mut Rng) -> Vec<u8> {
 	let n = rng.below(width);
-	let mut out: Vec<u8> = (0..n).map(|_| b'!' + (rng.below(90) as u8)).collect();
+	let mut out: Vec<u8> = if rng.chance(1, 4) {
+		// valid multi-byte UTF-8 (identifiers are UTF-8 strings, not ASCII)
+		let mut s = String::new();
+		loop {
+			let c = *rng.pick(&['a', 'Z', '-', '.', 'é', 'ü', 'ß', 'ス', 'マ', '世', '😀', '7']);
+			if s.len() + c.len_utf8() > n {
+				break;
+			}
+			s.push(c);
+		}
+		s.into_bytes()
+	} else {
+		(0..n).map(|_| b'!' + (rng.below(90) as u8)).collect()
+	};
 	out.push(0);
 	while out.len() < width {
 		out.push(if rng.chance(1, 2) { 0 } else { b'a' + rng.below(26) as u8 });
@@ -480,7 +514,7 @@ pub fn random_spec(rng: &mut Rng, ver: (u8, u8, u8), size: usize) -> Spec {
 		_ => rng.range(1, size.max(1)),
 	};
 	let absence = *rng.pick(&[0usize, 0, 1, 3, 5, 9]);
-	let frames = if nchars == 0 && !gte(v, (2, 2)) { vec![] } else { { let rb = rng.chance(1, 2); let mi = *rng.pick(&[0usize, 2, 15]); gen_frames(rng, v, nchars, n, rb, absence, mi) } };
+	let frames = if nchars == 0 && !gte(v, (2, 2)) { vec![] } else { { let rb = rng.chance(1, 2); let mi = *rng.pick(&[0usize, 2, 15, 16, 40]); gen_frames(rng, v, nchars, n, rb, absence, mi) } };
 	let gecko_blocks = if gte(v, (3, 3)) { *rng.pick(&[0usize, 0, 1, 1, 2, 3, 7]) } else { 0 };
 	// tail 0 = the list fills its last 512-byte block exactly
 	let gecko_tail = if gecko_blocks > 0 && !rng.chance(1, 5) { rng.below(512) } else { 0 };
